@@ -24,14 +24,25 @@ pub fn nanos_pool(g: &mut Gen) -> i128 {
         0, 1, 999, 1_000, 999_999, 1_000_000, 999_999_999, NPS, NPS + 1, 59 * NPS, 60 * NPS, 3_599 * NPS + 999_999_999,
         3_600 * NPS, 43_200 * NPS, NPD - 1, NPD - NPS,
     ];
-    match g.rng.next() % 10 {
+    let n = match g.rng.next() % 10 {
         0..=4 => *g.rng.pick(&fixed),
         5..=6 => g.rng.range(0, 86_399) * NPS,
         _ => g.rng.range(0, NPD - 1),
-    }
+    };
+    g.last_nanos = n;
+    n
 }
 pub fn off_pool(g: &mut Gen) -> i128 {
     let fixed: [i128; 17] = [0, 1, -1, 59, -59, 60, -60, 3_599, -3_599, 3_600, -3_600, 5_400, -5_400, 86_399, -86_399, 19_800, -34_200];
+    // one time in five the offset is aligned with the time of day drawn before it, so that the LOCAL reading sits on a
+    // boundary (00:00:00, 23:59:59, 12:00:00, one second past midnight) - day carry / borrow, noon / midnight
+    if g.rng.chance(1, 5) {
+        let tod = g.last_nanos / NPS;
+        let target = *g.rng.pick(&[0i128, 0, 86_399, 43_200, 1]);
+        let mut o = target - tod;
+        if g.rng.chance(1, 2) { o = if o > 0 { o - 86_400 } else { o + 86_400 }; }
+        if o.abs() <= 86_399 { return o; }
+    }
     match g.rng.next() % 10 {
         0..=2 => 0,
         3..=7 => *g.rng.pick(&fixed),
